@@ -50,7 +50,7 @@ impl Check for C05 {
             let si = syn_input(&toks, &mut rng, true);
             out.evals += 1;
             let detail = |x: String| json!({"grammar": b.src, "input": inp.iter().map(|t| rc.ag.tokens[*t].name.clone()).collect::<Vec<_>>(), "text": si.text, "token_costs": rc.ag.tokens.iter().zip(costs.iter()).map(|(t, c)| json!([t.name, c])).collect::<Vec<_>>(), "obs": x});
-            let rec = match record_parse(b, &rc.st, &si, &cost, Budget::Steps(if rc.cost_kind == "some-200-255" { 600 } else { tier.sz(8_000, 30_000) })) {
+            let rec = match record_parse(b, &rc.st, &si, &cost, Budget::Steps(if rc.cost_kind.ends_with("200-255") { 600 } else { tier.sz(8_000, 30_000) })) {
                 Ok(r) => r,
                 Err(p) => {
                     out.violate("panic", &["parse"], format!("parse with recovery panicked: {p}"), detail(String::new()));
